@@ -378,6 +378,8 @@ fn convert_expr(ctx: &mut ResolveContext, e_id: ExprNodeId) -> ExprNodeId {
             }
 
             let new_body = convert_expr(ctx, body);
+            // The module context applies to the bound expression only, not to what follows it.
+            ctx.current_module_context = prev_context;
             let new_then = then.map(|t| {
                 ctx.push_scope();
                 ctx.bind_pattern_locals(&pat.pat);
@@ -385,8 +387,6 @@ fn convert_expr(ctx: &mut ResolveContext, e_id: ExprNodeId) -> ExprNodeId {
                 ctx.pop_scope();
                 converted
             });
-
-            ctx.current_module_context = prev_context;
             Expr::Let(pat, new_body, new_then).into_id(loc)
         }
         Expr::Lambda(params, r_type, body) => {
